@@ -81,6 +81,56 @@ def clause1(P, res):
         res.violated(rid, "sensitive-sites", f"expected >= 60 lock-sensitive sites, found {n}")
 
 
+TIMEOUT_BODIES = {
+    "fibre::internal::rendezvous::RendezvousShared::<T, R>::recv_timeout": (r"push_receiver", r"cancel_receiver"),
+    "fibre::mpmc_v2::sync_impl::recv_timeout_sync": (r"push_back", r"compare_exchange"),
+    "fibre::mpmc_v2::unbounded::shared::UnboundedShared::<T>::timeout_finish": (None, r"remove_waiter"),
+}
+
+
+def clause2(P, res):
+    rid = "C01-2"
+    res.rule(rid, "a timed receive honours a committed handoff: once the receiver is registered as a handoff target, Timeout is returned only on the "
+                  "success edge of withdrawing that registration (cancel / remove_waiter / CAS of its own state), or as the outcome of re-reading its "
+                  "own state with Acquire; never unconditionally")
+    for bid, (reg_rx, cancel_rx) in TIMEOUT_BODIES.items():
+        b = P.body(bid)
+        if b is None:
+            res.unclassified(rid, bid, "timed receive body not found (renamed?)")
+            continue
+        touts = [e for e in b.events if e.kind == "assign" and e.data["r"]["k"] == "agg" and e.data["r"]["variant"] == "Timeout"]
+        regs = [e for e in b.calls() if reg_rx and re.fullmatch(reg_rx, e.method or "") and ("waiting_sync_receivers" in b.path_of_operand(e.args[0]) or e.method != "push_back")]
+        ok_edges = []
+        for blk in range(len(b.blocks)):
+            if b.is_cleanup(blk):
+                continue
+            s = b.switch_source(blk)
+            t = b.term(blk)
+            if s and s["kind"] == "call" and re.fullmatch(cancel_rx, s["event"].method or "") and not s["event"].is_atomic:
+                ok_edges += b.edges_by_label(blk).get("false" if s.get("neg") else "true", [])
+            if s and s["kind"] == "discr" and s.get("def") is not None and s["def"].kind == "call" and s["def"].is_atomic and s["def"].method.startswith("compare_exchange"):
+                ok_edges += b.edges_by_label(blk).get("Ok", [])
+            if s and s["kind"] == "discr" and b.path_of_place(s["place"]).endswith("registered"):
+                ok_edges += b.edges_by_label(blk).get("None", [])
+            if t["k"] == "switch" and t.get("on", {}).get("kind") == "int":
+                src = b.producer_call(t["o"])
+                if src is not None and src.is_atomic and src.method == "load" and src.args and b.path_of_operand(src.args[0]).endswith("state") \
+                        and (orderings._ordering(b, src) or ["?"])[0] in orderings.STRONG_R:
+                    ok_edges += [(blk, x) for x in b.succ[blk]]
+        for i, t in enumerate(touts):
+            key = f"{bid}:Timeout#{i}"
+            after_reg = (not regs) or any(t.pos in b.pos_reach_set(r.pos) for r in regs)
+            if not after_reg:
+                res.holds(rid, key, "before any registration: nothing can have been handed off", where=t.loc, nontrivial=False)
+            elif ok_edges and b.edges_dominate(ok_edges, t.pos):
+                res.holds(rid, key, "behind a successful withdrawal of the registration or a re-read of the waiter state", where=t.loc)
+            else:
+                res.violated(rid, key, f"Timeout is returned at {t.loc} on a path that neither withdrew the registration successfully nor re-read the waiter state: "
+                             "a handoff committed meanwhile is discarded while the sender was told Ok", where=t.loc)
+        if not touts:
+            res.unclassified(rid, bid, "no Timeout construction found")
+
+
 def clause3(P, res):
     rid = "C01-3"
     res.rule(rid, "publication order and strength: (a) a payload write is followed, before the function returns, by an atomic write >= Release (or by the "
@@ -105,9 +155,81 @@ def clause3(P, res):
         res.violated(rid, "sync-field-sites", f"expected >= 200 sites on synchronisation fields, found {n}")
 
 
+SINGLE_ENDPOINT = {
+    # handle ADT -> why only one thread may operate it at a time
+    "fibre::spsc::bounded_sync::BoundedSyncSender": "spsc producer side of the Lamport ring (unsynchronised cached_head)",
+    "fibre::spsc::bounded_sync::BoundedSyncReceiver": "spsc consumer side (unsynchronised cached_tail)",
+    "fibre::spsc::bounded_async::BoundedAsyncSender": "spsc producer side",
+    "fibre::spsc::bounded_async::BoundedAsyncReceiver": "spsc consumer side",
+    # (mpsc bounded receivers and the oneshot receiver are not listed: their consumer cursor / take is itself
+    #  synchronised — Mutex<Head>, CAS SENT->TAKEN — so sharing them is memory-safe and exactly-once by construction)
+    "fibre::mpsc::unbounded_v3::consumer::Receiver": "mpsc single consumer (tail cursor)",
+    "fibre::mpsc::unbounded_v3::consumer::AsyncReceiver": "mpsc single consumer",
+}
+OBS = {"is_closed", "capacity", "len", "is_empty", "is_full", "sender_count", "receiver_count", "close", "fmt", "drop", "clone", "is_sent"}
+
+
+def clause4(P, res):
+    rid = "C01-4"
+    res.rule(rid, "failure hands the value back / endpoints are exclusive: (a) in every construction of TrySendBatchError / SendBatchError the `unsent` "
+                  "operand is data-derived from the items the caller passed in (argument, mapped error or the future's own iterator), never built from "
+                  "nothing; (b) single-endpoint handles are not Clone and are either !Sync or expose their send/receive operations only through "
+                  "&mut self, so safe code cannot run two producers (consumers) on a single-producer (single-consumer) structure")
+    n = 0
+    for b in P.bodies.values():
+        if not b.id.startswith("fibre::") or not common.in_scope(b.id) or "::tests::" in b.id or b.impl_trait == "core::clone::Clone":
+            continue
+        for e in b.events:
+            if e.kind == "assign" and e.data["r"]["k"] == "agg" and re.search(r"error::(TrySendBatchError|SendBatchError)$", e.data["r"]["adt"]):
+                r = e.data["r"]
+                ops = dict(zip(r["fields"], r["ops"]))
+                u = ops.get("unsent")
+                n += 1
+                key = f"{b.id}:unsent@{[x for x in b.events if x.kind == 'assign' and x.data['r'].get('adt') == r['adt']].index(e)}"
+                if u is None:
+                    res.unclassified(rid, key, "batch error without an `unsent` field", where=e.loc)
+                    continue
+                evs, args, consts = mir.operand_sources(b, u)
+                carriers = [a for a in args if re.search(r"Vec<|IntoIter|Iterator|BatchError|Future|&mut|I$", b.locals[a].get("ty", "")) or b.local_name(a) in ("items", "e", "self", "iter")]
+                if carriers:
+                    res.holds(rid, key, f"unsent derives from `{b.local_name(carriers[0])}`", where=e.loc)
+                else:
+                    res.violated(rid, key, f"the batch error built at {e.loc} carries an `unsent` that does not come from the caller's items: values the channel "
+                                 "did not accept are dropped instead of being handed back", where=e.loc)
+    if n < 40:
+        res.violated(rid, "batch-error-sites", f"expected >= 40 batch-error constructions, found {n}")
+    hs = common.handles(P)
+    for adt, why in SINGLE_ENDPOINT.items():
+        a = P.adts.get(adt)
+        key = f"endpoint:{adt}"
+        if a is None:
+            res.unclassified(rid, key, "single-endpoint handle type not found (renamed?)")
+            continue
+        if P.has_impl(adt, "core::clone::Clone"):
+            res.violated(rid, key, f"{adt.rsplit('::', 1)[-1]} is Clone: two handles can drive the {why}")
+            continue
+        is_sync = a.get("sync_u64")
+        shared_ops = []
+        for m in P.methods_of(adt, inherent_only=True):
+            if m.vis != "pub" or m.name in OBS or m.name.startswith("to_"):
+                continue
+            t1 = m.locals[1].get("ty", "") if m.argc >= 1 else ""
+            if t1.startswith("&") and not t1.startswith("&mut"):
+                shared_ops.append(m.name)
+        if not is_sync:
+            res.holds(rid, key, "not Clone and !Sync: a shared reference cannot cross threads", where=f"{a['file']}:{a['line']}")
+        elif not shared_ops:
+            res.holds(rid, key, "not Clone; Sync, but every operation takes &mut self", where=f"{a['file']}:{a['line']}")
+        else:
+            res.violated(rid, key, f"{adt.rsplit('::', 1)[-1]} is Sync and {sorted(shared_ops)[:6]} take &self: two threads can operate the {why} concurrently from safe code",
+                         where=f"{a['file']}:{a['line']}")
+
+
 def run(P, ctx):
     res = Result("C01")
     res.extra["explanation"] = "Handoff-under-lock, timeout-vs-handoff, publication order/strength and value-returned-on-failure shapes of the point-to-point channels."
     clause1(P, res)
+    clause2(P, res)
     clause3(P, res)
+    clause4(P, res)
     return res
